@@ -69,9 +69,10 @@ func (x *Exec) doCallVals(st *State, cc *ssa.CallCommon, fnv V, args []V, site s
 		return x.runFunc(st, callee, args, cl.bindings)
 	}
 	if con == nil {
-		x.warn("no contract for external function %s: results havocked, memory unchanged", key)
-		x.noteAssumption("external function " + key + " has no contract: result unconstrained, assumed not to modify modelled memory")
-		con = &Contract{Func: key, AssignsSet: true, Trusted: true}
+		// conservative frame: the heap (outside codec metadata) and fresh byte memory may change
+		x.warn("no contract for external function %s: results and non-metadata heap havocked", key)
+		x.noteAssumption("external function " + key + " has no contract: result unconstrained; it may modify any non-metadata heap, not the bytes of existing buffers")
+		con = &Contract{Func: key, Trusted: true}
 	}
 	names := declParamNames(callee)
 	return []Outcome{x.applyContract(st, fr, con, key, names, args, callee.Signature, site, tp)}
@@ -185,6 +186,31 @@ func (x *Exec) applyContract(st *State, fr *Frame, con *Contract, key string, na
 	if sig.Recv() != nil && len(args) > 0 {
 		vars["self"] = args[0]
 	}
+	// pointer arguments carry their static type, so that clauses can name the fields behind them
+	for i, n := range names {
+		if i >= len(args) {
+			continue
+		}
+		var pt types.Type
+		if sig.Recv() != nil {
+			if i == 0 {
+				pt = sig.Recv().Type()
+			} else if i-1 < sig.Params().Len() {
+				pt = sig.Params().At(i - 1).Type()
+			}
+		} else if i < sig.Params().Len() {
+			pt = sig.Params().At(i).Type()
+		}
+		if v := vars[n]; v.K == KPtr && v.Typ == nil && pt != nil {
+			if _, ok := pt.Underlying().(*types.Pointer); ok {
+				v.Typ = pt
+				vars[n] = v
+				if sig.Recv() != nil && i == 0 {
+					vars["self"] = v
+				}
+			}
+		}
+	}
 	pre := snapshotMem(st)
 	env := &CEnv{st: st, oldMem: pre, vars: vars, tparam: tp, fn: key, prove: true}
 	for i, rq := range con.Requires {
@@ -196,6 +222,42 @@ func (x *Exec) applyContract(st *State, fr *Frame, con *Contract, key string, na
 		}
 		x.oblige(st, name, "requires", x.tagsOr(rq.Tags, fr), t, x.posOf(site.Pos()), "precondition of "+key+": "+rq.Text)
 		st.assume(t)
+	}
+	// separate regions demanded by the callee: the caller must hold the same object as a region
+	var sepSpaces []string
+	for _, sp := range con.Separate {
+		name := x.instrName(fr, site, "call") + fmt.Sprintf(".separate(%s.%s)", sp.Param, sp.Field)
+		var pt types.Type
+		for i, n := range names {
+			if n != sp.Param || i >= len(args) {
+				continue
+			}
+			if sig.Recv() != nil {
+				if i == 0 {
+					pt = sig.Recv().Type()
+				} else if i-1 < sig.Params().Len() {
+					pt = sig.Params().At(i - 1).Type()
+				}
+			} else if i < sig.Params().Len() {
+				pt = sig.Params().At(i).Type()
+			}
+		}
+		pv, ok := vars[sp.Param]
+		if !ok || pt == nil {
+			x.genFail(name, "requires", x.safetyTags(fr), x.posOf(site.Pos()), "separate: unknown parameter "+sp.Param)
+			continue
+		}
+		addr, err := sepHeaderAddr(pv, pt, sp.Field)
+		if err != nil {
+			x.genFail(name, "requires", x.safetyTags(fr), x.posOf(site.Pos()), "separate: "+err.Error())
+			continue
+		}
+		pr, ok := st.shadow["H@"+addr]
+		if !ok || !strings.HasPrefix(pr.Space, "H:sep") {
+			x.genFail(name, "requires", x.safetyTags(fr), x.posOf(site.Pos()), "the caller does not hold "+sp.Param+"."+sp.Field+" as a separate object (needs its own 'separate' precondition)")
+			continue
+		}
+		sepSpaces = append(sepSpaces, pr.Space)
 	}
 	for _, nc := range con.NeedsClean {
 		if pv, ok := vars[nc.Callee]; ok && pv.K == KPtr {
@@ -248,6 +310,11 @@ func (x *Exec) applyContract(st *State, fr *Frame, con *Contract, key string, na
 			st.havoc("H", x.heapKeep(st))
 			st.noteMod("H")
 			x.noteAssumption("callee " + key + " modifies only non-metadata heap (ismeta frame)")
+			for _, ss := range sepSpaces {
+				// the callee's separate objects are part of the heap it may modify
+				st.havoc(ss, nil)
+				st.noteMod(ss)
+			}
 		case "H+":
 			brk := st.brk["H"]
 			st.havoc("H", func(a string) string { return app("bvult", a, brk) })
@@ -546,7 +613,57 @@ func (x *Exec) appendSeqDyn(st *State, data V, slen string, byteFn func(s *State
 	return vTuple(vPtr(rp, &Prov{Space: space, Region: region}), vBV(nl, 64, true), vBV(rc, 64, true))
 }
 
+// appendTyped models append(data, src...) for slices of fixed-size elements kept
+// in the typed heap: when the new length fits the capacity the elements are
+// written in place, otherwise a fresh array holds a copy of data followed by
+// src. Both cases are one write of (len(data)+len(src)) elements at the result
+// pointer (in place, the first len(data) elements are rewritten with their own values).
 func (x *Exec) appendTyped(st *State, fr *Frame, cc *ssa.CallCommon, args []V, site ssa.Instruction, et types.Type) V {
+	data, src := args[0], args[1]
+	if data.K != KTuple || len(data.Fs) != 3 || src.K != KTuple || len(src.Fs) < 2 {
+		unsup("append on non-byte slice ([]%s): unexpected operand shape", et)
+	}
+	dp, dl, dc := data.Fs[0], data.Fs[1].T, data.Fs[2].T
+	sp, sl := src.Fs[0], src.Fs[1].T
+	hsp := spaceOf(dp, "H")
+	if hsp != "H" && !strings.HasPrefix(hsp, "H:sep") {
+		unsup("append on a []%s outside the heap", et)
+	}
+	es := bvLit(uint64(sizeof(et)), 64)
+	nl := st.define("nlen", sortBV(64), bvadd(dl, sl))
+	ncap := st.freshConst("ncap", sortBV(64))
+	st.assume(and(app("bvsge", ncap, nl), app("bvult", ncap, bvLit(maxLen, 64))))
+	fits := st.define("fits", "Bool", app("bvsle", nl, dc))
+	fresh := st.bump("H", st.define("nb", sortBV(64), app("bvmul", ncap, es)))
+	rp := st.define("aptr", sortBV(64), ite(fits, dp.T, fresh))
+	rc := st.define("rc", sortBV(64), ite(fits, dc, ncap))
+	oldBytes := st.define("ob", sortBV(64), app("bvmul", dl, es))
+	srcSpace := spaceOf(sp, "H")
+	srcSnap := st.mem[srcSpace]
+	hSnap := st.mem[hsp]
+	if srcSnap == nil || hSnap == nil {
+		unsup("append on non-byte slice ([]%s): unknown memory", et)
+	}
+	st.writeSeq(hsp, rp, st.define("nb", sortBV(64), app("bvmul", nl, es)), func(s *State, k string) string {
+		oa := bvadd(dp.T, k)
+		sa := bvadd(sp.T, bvsubw(k, oldBytes, 64))
+		hSnap.facts(s, oa)
+		srcSnap.facts(s, sa)
+		return ite(app("bvult", k, oldBytes), app("select", hSnap.term, oa), app("select", srcSnap.term, sa))
+	})
+	st.noteMod(hsp)
+	if hsp == "H" {
+		st.noteMod("H:store")
+	}
+	st.noteMod("H+")
+	prov := &Prov{Space: "H", Region: "heap"}
+	if hsp != "H" {
+		prov = dp.Prov
+	}
+	return V{K: KTuple, Fs: []V{vPtr(rp, prov), vBV(nl, 64, true), vBV(rc, 64, true)}, Typ: cc.Args[0].Type()}
+}
+
+func (x *Exec) appendTypedUnsupported(et types.Type) V {
 	unsup("append on non-byte slice ([]%s)", et)
 	return V{}
 }
